@@ -38,28 +38,40 @@ func (gen *generator) indexTopLevelEntities(old *ast.Module) error {
 			}
 			gen.old.comdatDefs[name] = entity
 		case *ast.GlobalDecl:
-			ident := giveUnnamedIdentID(globalIdent(entity.Name()), &id)
+			ident, err := giveUnnamedIdentID(globalIdent(entity.Name()), &id)
+			if err != nil {
+				return errors.WithStack(err)
+			}
 			if prev, ok := gen.old.globals[ident]; ok {
 				return errors.Errorf("global identifier %q already present; prev `%s`, new `%s`", ident.Ident(), text(prev), text(entity))
 			}
 			gen.old.globals[ident] = entity
 			gen.old.globalOrder = append(gen.old.globalOrder, ident)
 		case *ast.IndirectSymbolDef:
-			ident := giveUnnamedIdentID(globalIdent(entity.Name()), &id)
+			ident, err := giveUnnamedIdentID(globalIdent(entity.Name()), &id)
+			if err != nil {
+				return errors.WithStack(err)
+			}
 			if prev, ok := gen.old.globals[ident]; ok {
 				return errors.Errorf("global identifier %q already present; prev `%s`, new `%s`", ident.Ident(), text(prev), text(entity))
 			}
 			gen.old.globals[ident] = entity
 			gen.old.globalOrder = append(gen.old.globalOrder, ident)
 		case *ast.FuncDecl:
-			ident := giveUnnamedIdentID(globalIdent(entity.Header().Name()), &id)
+			ident, err := giveUnnamedIdentID(globalIdent(entity.Header().Name()), &id)
+			if err != nil {
+				return errors.WithStack(err)
+			}
 			if prev, ok := gen.old.globals[ident]; ok {
 				return errors.Errorf("global identifier %q already present; prev `%s`, new `%s`", ident.Ident(), text(prev), text(entity))
 			}
 			gen.old.globals[ident] = entity
 			gen.old.globalOrder = append(gen.old.globalOrder, ident)
 		case *ast.FuncDef:
-			ident := giveUnnamedIdentID(globalIdent(entity.Header().Name()), &id)
+			ident, err := giveUnnamedIdentID(globalIdent(entity.Header().Name()), &id)
+			if err != nil {
+				return errors.WithStack(err)
+			}
 			if prev, ok := gen.old.globals[ident]; ok {
 				return errors.Errorf("global identifier %q already present; prev `%s`, new `%s`", ident.Ident(), text(prev), text(entity))
 			}
@@ -93,14 +105,18 @@ func (gen *generator) indexTopLevelEntities(old *ast.Module) error {
 	return nil
 }
 
-// giveUnnamedIdentID assigns an unused ID to the global identifier if unnamed.
-func giveUnnamedIdentID(ident ir.GlobalIdent, id *int64) ir.GlobalIdent {
+// giveUnnamedIdentID assigns the next unused ID to the global identifier if
+// unnamed. Unnamed global identifiers are numbered consecutively in textual
+// order; an ID written out of sequence (e.g. a repeated @0) is reported as an
+// error.
+func giveUnnamedIdentID(ident ir.GlobalIdent, id *int64) (ir.GlobalIdent, error) {
 	if ident.IsUnnamed() {
-		// Assign next unused ID to unnamed global identifier.
-		ident.SetID(*id)
+		if ident.GlobalID != *id {
+			return ident, errors.Errorf("invalid global ID, expected %s, got %s", enc.GlobalID(*id), enc.GlobalID(ident.GlobalID))
+		}
 		*id++
 	}
-	return ident
+	return ident, nil
 }
 
 // === [ Create and index IR ] =================================================
